@@ -5,6 +5,7 @@ pub mod c02;
 pub mod c08;
 pub mod c09;
 pub mod c10;
+pub mod c11;
 pub mod c12;
 pub mod c13;
 pub mod c14;
@@ -62,6 +63,7 @@ pub fn all() -> Vec<Box<dyn Check>> {
     v.push(Box::new(c08::C08Driver));
     v.push(Box::new(c09::C09));
     v.push(Box::new(c10::C10));
+    v.push(Box::new(c11::C11));
     v.push(Box::new(c12::C12));
     v.push(Box::new(c13::C13Direct));
     v.push(Box::new(c14::C14));
@@ -134,6 +136,9 @@ pub fn extras(property: &str) -> EvidenceExtras {
         }
         "C14" => {
             e.rule = "each run = a P2P port (started Listening, Master or Slave) with a recording filter, one to three consecutive Pdelay requests answered by one or two scripted responders (one-step / two-step) whose events (TX timestamp, Pdelay_Resp, Pdelay_Resp_Follow_Up, duplicates, omissions, responses for another requester, announce receipt timer, BMCA) are interleaved by the tape; exact integer formula check per measurement, Faulty entry/exit rules; plus the Faulty-role monitors on random histories; non-trivial = a measurement was produced or a second responder appeared; distinct = event-kind sequence fingerprint".into();
+        }
+        "C11" => {
+            e.rule = "each run = a 2-3 port boundary clock between a scripted parent (Announce contents redrawn at tape-chosen times: flags, utcOffset, timeSource, quality, priorities, stepsRemoved 0..254, grandmaster identity), a competing master, parent silences and run-time set_clock_quality; every emitted Announce is compared field by field with the data-set getters, with the parent's last Announce (+1 step) and with the instance's own attributes; non-trivial = Announces were emitted while a port was slave; distinct = change-script fingerprint plus transition sequence".into();
         }
         "C12" => {
             e.rule = "each run = a generated history with a faithful host (timers armed and fired exactly as requested; lost/late TX timestamps, masters appearing/disappearing, second peer-delay responders) followed by (a) total silence or (b) a steadily announcing better master; non-trivial = phase 2 evaluated; distinct = (variant, start states, transition sequence) fingerprint".into();
